@@ -96,6 +96,71 @@ theorem advWhile_over (p : UInt8 → Bool) {z : Z} {l rest : Bytes} (hz : z.afte
   unfold advWhile
   exact advWhileF_over p l _ z rest hz (by simp [hz]) hl hstop
 
+/-! ### `advLine` -/
+
+local notation "CR" => (0x0D : UInt8)
+
+/-- where `advLine p` stops: `rest` is empty, stands at a line end (LF, or CR LF), or its first
+    byte fails `p` -/
+def StopsL (p : UInt8 → Bool) (rest : Bytes) : Prop :=
+  ∀ c t, rest = c :: t → (p c && !atEol (c :: t)) = false
+
+theorem StopsL.nil (p : UInt8 → Bool) : StopsL p [] := by intro c t h; cases h
+
+theorem StopsL.eol {p : UInt8 → Bool} {rest : Bytes} (h : atEol rest = true) : StopsL p rest := by
+  intro c t hr; subst hr; simp [h]
+
+theorem StopsL.lf (p : UInt8 → Bool) (t : Bytes) : StopsL p (LF :: t) := StopsL.eol (atEol_lf t)
+
+theorem StopsL.crlf (p : UInt8 → Bool) (t : Bytes) : StopsL p (CR :: LF :: t) := StopsL.eol (atEol_crlf t)
+
+theorem StopsL.cons {p : UInt8 → Bool} {c : UInt8} (t : Bytes) (h : p c = false) : StopsL p (c :: t) := by
+  intro c' t' h'; cases h'; simp [h]
+
+/-- a stop of the loop that does not know about line ends (`q` fails at LF and wherever `p`
+    fails) is a stop of `advLine p` -/
+theorem StopsL.of_stops {p q : UInt8 → Bool} {rest : Bytes} (h : Stops q rest)
+    (hq : ∀ c, q c = false → p c = false ∨ c = LF) : StopsL p rest := by
+  intro c t hr
+  rcases hq c (h c t hr) with h1 | h1
+  · simp [h1]
+  · subst h1; simp [atEol]
+
+theorem advLineF_over (p : UInt8 → Bool) (l : Bytes) :
+    ∀ (n : Nat) (z : Z) (rest : Bytes), z.after = l ++ rest → l.length ≤ n →
+      (∀ c ∈ l, p c = true ∧ c < 0x80 ∧ c ≠ LF ∧ c ≠ CR) → StopsL p rest → advLineF p n z = z.over l rest := by
+  induction l with
+  | nil =>
+    intro n z rest hz _ _ hstop
+    simp only [List.nil_append] at hz
+    rw [over_nil z rest hz]
+    cases n with
+    | zero => rfl
+    | succ n =>
+      unfold advLineF
+      cases rest with
+      | nil => simp [hz]
+      | cons c t => simp only [hz, hstop c t rfl]; rfl
+  | cons c l ih =>
+    intro n z rest hz hn hl hstop
+    cases n with
+    | zero => simp at hn
+    | succ n =>
+      have hc := hl c (by simp)
+      have hz' : z.after = c :: (l ++ rest) := by simpa using hz
+      unfold advLineF
+      simp only [hz', hc.1, atEol_of_ne hc.2.2.1 hc.2.2.2, Bool.not_false, Bool.and_self, if_true]
+      rw [advance_over hz' hc.2.1, ih n _ rest rfl (by simpa using hn) (fun x hx => hl x (by simp [hx])) hstop,
+        over_over]
+      rfl
+
+/-- **`advLine` on a known lexeme** (ASCII, no CR, no LF). -/
+theorem advLine_over (p : UInt8 → Bool) {z : Z} {l rest : Bytes} (hz : z.after = l ++ rest)
+    (hl : ∀ c ∈ l, p c = true ∧ c < 0x80 ∧ c ≠ LF ∧ c ≠ CR) (hstop : StopsL p rest) :
+    advLine p z = z.over l rest := by
+  unfold advLine
+  exact advLineF_over p l _ z rest hz (by simp [hz]) hl hstop
+
 /-- blanks in front of a token -/
 theorem skipSpaces_over {z : Z} {sp rest : Bytes} (hz : z.after = sp ++ rest)
     (hsp : ∀ c ∈ sp, c = 0x20) (hstop : Stops isBlank rest) : skipSpaces z = z.over sp rest := by
